@@ -11,28 +11,28 @@ import (
 
 func pt[T any](p *T) { rt.AtomicPoint(unsafe.Pointer(p)) }
 
-func AddInt32(addr *int32, delta int32) int32       { pt(addr); return atomic.AddInt32(addr, delta) }
-func AddInt64(addr *int64, delta int64) int64       { pt(addr); return atomic.AddInt64(addr, delta) }
-func AddUint32(addr *uint32, delta uint32) uint32   { pt(addr); return atomic.AddUint32(addr, delta) }
-func AddUint64(addr *uint64, delta uint64) uint64   { pt(addr); return atomic.AddUint64(addr, delta) }
+func AddInt32(addr *int32, delta int32) int32     { pt(addr); return atomic.AddInt32(addr, delta) }
+func AddInt64(addr *int64, delta int64) int64     { pt(addr); return atomic.AddInt64(addr, delta) }
+func AddUint32(addr *uint32, delta uint32) uint32 { pt(addr); return atomic.AddUint32(addr, delta) }
+func AddUint64(addr *uint64, delta uint64) uint64 { pt(addr); return atomic.AddUint64(addr, delta) }
 func AddUintptr(addr *uintptr, delta uintptr) uintptr {
 	pt(addr)
 	return atomic.AddUintptr(addr, delta)
 }
-func LoadInt32(addr *int32) int32       { pt(addr); return atomic.LoadInt32(addr) }
-func LoadInt64(addr *int64) int64       { pt(addr); return atomic.LoadInt64(addr) }
-func LoadUint32(addr *uint32) uint32    { pt(addr); return atomic.LoadUint32(addr) }
-func LoadUint64(addr *uint64) uint64    { pt(addr); return atomic.LoadUint64(addr) }
-func LoadUintptr(addr *uintptr) uintptr { pt(addr); return atomic.LoadUintptr(addr) }
-func StoreInt32(addr *int32, v int32)       { pt(addr); atomic.StoreInt32(addr, v) }
-func StoreInt64(addr *int64, v int64)       { pt(addr); atomic.StoreInt64(addr, v) }
-func StoreUint32(addr *uint32, v uint32)    { pt(addr); atomic.StoreUint32(addr, v) }
-func StoreUint64(addr *uint64, v uint64)    { pt(addr); atomic.StoreUint64(addr, v) }
-func StoreUintptr(addr *uintptr, v uintptr) { pt(addr); atomic.StoreUintptr(addr, v) }
-func SwapInt32(addr *int32, v int32) int32       { pt(addr); return atomic.SwapInt32(addr, v) }
-func SwapInt64(addr *int64, v int64) int64       { pt(addr); return atomic.SwapInt64(addr, v) }
-func SwapUint32(addr *uint32, v uint32) uint32   { pt(addr); return atomic.SwapUint32(addr, v) }
-func SwapUint64(addr *uint64, v uint64) uint64   { pt(addr); return atomic.SwapUint64(addr, v) }
+func LoadInt32(addr *int32) int32              { pt(addr); return atomic.LoadInt32(addr) }
+func LoadInt64(addr *int64) int64              { pt(addr); return atomic.LoadInt64(addr) }
+func LoadUint32(addr *uint32) uint32           { pt(addr); return atomic.LoadUint32(addr) }
+func LoadUint64(addr *uint64) uint64           { pt(addr); return atomic.LoadUint64(addr) }
+func LoadUintptr(addr *uintptr) uintptr        { pt(addr); return atomic.LoadUintptr(addr) }
+func StoreInt32(addr *int32, v int32)          { pt(addr); atomic.StoreInt32(addr, v) }
+func StoreInt64(addr *int64, v int64)          { pt(addr); atomic.StoreInt64(addr, v) }
+func StoreUint32(addr *uint32, v uint32)       { pt(addr); atomic.StoreUint32(addr, v) }
+func StoreUint64(addr *uint64, v uint64)       { pt(addr); atomic.StoreUint64(addr, v) }
+func StoreUintptr(addr *uintptr, v uintptr)    { pt(addr); atomic.StoreUintptr(addr, v) }
+func SwapInt32(addr *int32, v int32) int32     { pt(addr); return atomic.SwapInt32(addr, v) }
+func SwapInt64(addr *int64, v int64) int64     { pt(addr); return atomic.SwapInt64(addr, v) }
+func SwapUint32(addr *uint32, v uint32) uint32 { pt(addr); return atomic.SwapUint32(addr, v) }
+func SwapUint64(addr *uint64, v uint64) uint64 { pt(addr); return atomic.SwapUint64(addr, v) }
 func CompareAndSwapInt32(addr *int32, o, n int32) bool {
 	pt(addr)
 	return atomic.CompareAndSwapInt32(addr, o, n)
@@ -54,53 +54,53 @@ func CompareAndSwapUint64(addr *uint64, o, n uint64) bool {
 
 type Int32 struct{ v atomic.Int32 }
 
-func (x *Int32) Load() int32                   { pt(x); return x.v.Load() }
-func (x *Int32) Store(v int32)                 { pt(x); x.v.Store(v) }
-func (x *Int32) Add(d int32) int32             { pt(x); return x.v.Add(d) }
-func (x *Int32) Swap(v int32) int32            { pt(x); return x.v.Swap(v) }
+func (x *Int32) Load() int32                    { pt(x); return x.v.Load() }
+func (x *Int32) Store(v int32)                  { pt(x); x.v.Store(v) }
+func (x *Int32) Add(d int32) int32              { pt(x); return x.v.Add(d) }
+func (x *Int32) Swap(v int32) int32             { pt(x); return x.v.Swap(v) }
 func (x *Int32) CompareAndSwap(o, n int32) bool { pt(x); return x.v.CompareAndSwap(o, n) }
 
 type Int64 struct{ v atomic.Int64 }
 
-func (x *Int64) Load() int64                   { pt(x); return x.v.Load() }
-func (x *Int64) Store(v int64)                 { pt(x); x.v.Store(v) }
-func (x *Int64) Add(d int64) int64             { pt(x); return x.v.Add(d) }
-func (x *Int64) Swap(v int64) int64            { pt(x); return x.v.Swap(v) }
+func (x *Int64) Load() int64                    { pt(x); return x.v.Load() }
+func (x *Int64) Store(v int64)                  { pt(x); x.v.Store(v) }
+func (x *Int64) Add(d int64) int64              { pt(x); return x.v.Add(d) }
+func (x *Int64) Swap(v int64) int64             { pt(x); return x.v.Swap(v) }
 func (x *Int64) CompareAndSwap(o, n int64) bool { pt(x); return x.v.CompareAndSwap(o, n) }
 
 type Uint32 struct{ v atomic.Uint32 }
 
-func (x *Uint32) Load() uint32                   { pt(x); return x.v.Load() }
-func (x *Uint32) Store(v uint32)                 { pt(x); x.v.Store(v) }
-func (x *Uint32) Add(d uint32) uint32            { pt(x); return x.v.Add(d) }
-func (x *Uint32) Swap(v uint32) uint32           { pt(x); return x.v.Swap(v) }
+func (x *Uint32) Load() uint32                    { pt(x); return x.v.Load() }
+func (x *Uint32) Store(v uint32)                  { pt(x); x.v.Store(v) }
+func (x *Uint32) Add(d uint32) uint32             { pt(x); return x.v.Add(d) }
+func (x *Uint32) Swap(v uint32) uint32            { pt(x); return x.v.Swap(v) }
 func (x *Uint32) CompareAndSwap(o, n uint32) bool { pt(x); return x.v.CompareAndSwap(o, n) }
 
 type Uint64 struct{ v atomic.Uint64 }
 
-func (x *Uint64) Load() uint64                   { pt(x); return x.v.Load() }
-func (x *Uint64) Store(v uint64)                 { pt(x); x.v.Store(v) }
-func (x *Uint64) Add(d uint64) uint64            { pt(x); return x.v.Add(d) }
-func (x *Uint64) Swap(v uint64) uint64           { pt(x); return x.v.Swap(v) }
+func (x *Uint64) Load() uint64                    { pt(x); return x.v.Load() }
+func (x *Uint64) Store(v uint64)                  { pt(x); x.v.Store(v) }
+func (x *Uint64) Add(d uint64) uint64             { pt(x); return x.v.Add(d) }
+func (x *Uint64) Swap(v uint64) uint64            { pt(x); return x.v.Swap(v) }
 func (x *Uint64) CompareAndSwap(o, n uint64) bool { pt(x); return x.v.CompareAndSwap(o, n) }
 
 type Bool struct{ v atomic.Bool }
 
-func (x *Bool) Load() bool                   { pt(x); return x.v.Load() }
-func (x *Bool) Store(v bool)                 { pt(x); x.v.Store(v) }
-func (x *Bool) Swap(v bool) bool             { pt(x); return x.v.Swap(v) }
+func (x *Bool) Load() bool                    { pt(x); return x.v.Load() }
+func (x *Bool) Store(v bool)                  { pt(x); x.v.Store(v) }
+func (x *Bool) Swap(v bool) bool              { pt(x); return x.v.Swap(v) }
 func (x *Bool) CompareAndSwap(o, n bool) bool { pt(x); return x.v.CompareAndSwap(o, n) }
 
 type Value struct{ v atomic.Value }
 
-func (x *Value) Load() any                   { pt(x); return x.v.Load() }
-func (x *Value) Store(v any)                 { pt(x); x.v.Store(v) }
-func (x *Value) Swap(v any) any              { pt(x); return x.v.Swap(v) }
+func (x *Value) Load() any                    { pt(x); return x.v.Load() }
+func (x *Value) Store(v any)                  { pt(x); x.v.Store(v) }
+func (x *Value) Swap(v any) any               { pt(x); return x.v.Swap(v) }
 func (x *Value) CompareAndSwap(o, n any) bool { pt(x); return x.v.CompareAndSwap(o, n) }
 
 type Pointer[T any] struct{ v atomic.Pointer[T] }
 
-func (x *Pointer[T]) Load() *T                   { pt(x); return x.v.Load() }
-func (x *Pointer[T]) Store(v *T)                 { pt(x); x.v.Store(v) }
-func (x *Pointer[T]) Swap(v *T) *T               { pt(x); return x.v.Swap(v) }
+func (x *Pointer[T]) Load() *T                    { pt(x); return x.v.Load() }
+func (x *Pointer[T]) Store(v *T)                  { pt(x); x.v.Store(v) }
+func (x *Pointer[T]) Swap(v *T) *T                { pt(x); return x.v.Swap(v) }
 func (x *Pointer[T]) CompareAndSwap(o, n *T) bool { pt(x); return x.v.CompareAndSwap(o, n) }
